@@ -9,7 +9,7 @@
    0.05 g/kWh (C09_junction), which is the regulation's own one-decimal rounding -- stated so,
    because 45 x 130^-0.2 = 16.9992 is not exactly 17.0. *)
 From Coq Require Import QArith List Reals Lra.
-From Feems Require Import Base.Num Model.Nox Proofs.NoxProofs.
+From Feems Require Import Base.Num Base.Pchip Model.Nox Model.Emis Proofs.NoxProofs Proofs.EmisProofs.
 Import ListNotations.
 
 Open Scope R_scope.
@@ -49,6 +49,27 @@ Example C09_example : (* 12 g/kWh at 900 kW for 600 s, then 10 g/kWh at 450 kW f
   Qred (mass_kg [12; 10] [900; 450] [600; 1200]) = 33 # 10.
 Proof. vm_compute. reflexivity. Qed.
 
+(* ---- which characteristic a species uses (Model/Emis.v = Engine._setup_emissions ; Engine._setup_nox) ---- *)
+(* with a tier method the NOx figure is the Regulation 13 limit, whatever curves were handed over - a NOx curve included *)
+Theorem C09_tier_limit_replaces_a_given_nox_curve cs t tab : setup cs (MTier t) = Some tab -> tab NOX = Some (SLimit t).
+Proof. exact (setup_tier_nox cs t tab). Qed.
+Theorem C09_tier_method_never_refuses cs t : setup cs (MTier t) <> None.
+Proof. exact (setup_tier_accepts cs t). Qed.
+(* every other species: the last curve with points given for it, none if there is none - under either method *)
+Theorem C09_other_species_use_the_last_given_curve cs m tab s : setup cs m = Some tab -> s <> NOX -> tab s = last_given cs s.
+Proof. exact (setup_other_species cs m tab s). Qed.
+(* the method "curve" needs a NOx curve with points, and uses the last one *)
+Theorem C09_curve_method_needs_a_nox_curve cs : setup cs MCurve = None <-> last_given cs NOX = None.
+Proof. exact (setup_curve_method cs). Qed.
+Theorem C09_curve_method_uses_the_nox_curve cs tab : setup cs MCurve = Some tab -> tab NOX = last_given cs NOX /\ last_given cs NOX <> None.
+Proof. exact (setup_curve_nox cs tab). Qed.
+Example C09_setup_example :   (* NOx curve and two CO curves (the first without points... the second wins) on a Tier II engine *)
+  match setup [(NOX, [(1 # 4, 9); (1, 7)]); (1%nat, [(1 # 2, 2)]); (1%nat, []); (1%nat, [(1 # 2, 3)])] (MTier 1) with
+  | Some tab => tab NOX = Some (SLimit 1) /\ tab 1%nat = Some (SCurve (Const 3)) /\ tab 2%nat = None
+  | None => False
+  end.
+Proof. vm_compute. repeat split. Qed.
+
 Print Assumptions C09_limit_values.
 Print Assumptions C09_positive.
 Print Assumptions C09_never_increases.
@@ -56,3 +77,8 @@ Print Assumptions C09_junction.
 Print Assumptions C09_tier_order.
 Print Assumptions C09_species_mass.
 Print Assumptions C09_tier_mass.
+Print Assumptions C09_tier_limit_replaces_a_given_nox_curve.
+Print Assumptions C09_tier_method_never_refuses.
+Print Assumptions C09_other_species_use_the_last_given_curve.
+Print Assumptions C09_curve_method_needs_a_nox_curve.
+Print Assumptions C09_curve_method_uses_the_nox_curve.
